@@ -59,7 +59,11 @@ func (e *Executor) checkReads(i int, op, what string, r reader, t *model.Tree) *
 		}
 		got, err := r.Get(key)
 		if err != nil || !bytes.Equal(got, wv) || (got == nil) != !found {
-			return viol("reads", i, op, fmt.Sprintf("%s Get(%x)", what, key), hx(wv), fmt.Sprint(hx(got), ",", err))
+			v := viol("reads", i, op, fmt.Sprintf("%s Get(%x)", what, key), hx(wv), fmt.Sprint(hx(got), ",", err))
+			if err != nil || !e.staleIndex() {
+				return v
+			}
+			e.known("F-C07a", v)
 		}
 		has, err := r.Has(key)
 		if err != nil || has != found {
@@ -95,7 +99,11 @@ func (e *Executor) checkReads(i int, op, what string, r reader, t *model.Tree) *
 		return viol("reads", i, op, what+" Iterate result", "false,nil", fmt.Sprint(stopped, ",", err))
 	}
 	if msg := diffPairs(want, got); msg != "" {
-		return viol("reads", i, op, what+" Iterate sequence", fmtPairs(want), fmtPairs(got))
+		v := viol("reads", i, op, what+" Iterate sequence", fmtPairs(want), fmtPairs(got))
+		if !e.staleIndex() {
+			return v
+		}
+		e.known("F-C07a", v)
 	}
 	e.obs(2)
 	return nil
@@ -152,7 +160,11 @@ func (e *Executor) sweepReads(i int, op string) *Violation {
 			}
 			got, err := e.tree.GetVersioned(key, ver)
 			if err != nil || !bytes.Equal(got, wv) || (got == nil) != (wv == nil) {
-				return viol("reads", i, op, fmt.Sprintf("GetVersioned(%x, %d)", key, ver), hx(wv), fmt.Sprint(hx(got), ",", err))
+				v := viol("reads", i, op, fmt.Sprintf("GetVersioned(%x, %d)", key, ver), hx(wv), fmt.Sprint(hx(got), ",", err))
+				if err != nil || !e.staleIndex() {
+					return v
+				}
+				e.known("F-C07a", v)
 			}
 			e.obs(1)
 		}
